@@ -217,6 +217,24 @@ def disabled_probe(out):
             out.setdefault("intro/disabled-breaks-ordinary-field/%s" % what, ["ordinary field affected by disabling introspection", {"query": q, "data": repr(data)}])
 
 
+def unknown_type_probe(out):
+    """`__type(name:)` of a name the schema does not define reports null (4.2 Schema Introspection: "__type(name: String!): __Type");
+    together with the full reports this is "exactly the schema": nothing is reported for what is not there, and nothing raises."""
+    from py_gql import build_schema, graphql_blocking, process_graphql_query
+    schema = build_schema("type Query { a: Int } ")
+    schema.query_type.field_map["a"].resolver = lambda r, c, i: 1
+    for fn, cfg in ((graphql_blocking, "blocking-optimised"), (process_graphql_query, "blocking-generic")):
+        q = '{ a __type(name: "Nope") { name kind } known: __type(name: "Query") { name } }'
+        try:
+            res = fn(schema, q)
+        except Exception as e:
+            out.setdefault("intro/unknown-type/raises/%s" % type(e).__name__, ["__type of an undefined name raises instead of reporting null", {"query": q, "cfg": cfg, "error": repr(e)}])
+            continue
+        data = res.data or {}
+        if data.get("__type") is not None or res.errors or data.get("known") != {"name": "Query"} or data.get("a") != 1:
+            out.setdefault("intro/unknown-type/wrong-report", ["__type of an undefined name does not simply report null", {"query": q, "cfg": cfg, "data": repr(data), "errors": [str(e) for e in res.errors]}])
+
+
 def history_stage(chk, out):
     """introspect -> hide in place -> introspect again (possibleTypes / type lists must follow)."""
     from py_gql.schema.transforms import VisibilitySchemaTransform
@@ -279,6 +297,7 @@ def run(chk):
             chk.diverge(k, wit, what)
     out = {}
     disabled_probe(out)
+    unknown_type_probe(out)
     chk.traces += history_stage(chk, out)
     for k, (what, wit) in out.items():
         chk.diverge(k, wit, what)
